@@ -8,6 +8,13 @@
   returning `.ok`, i.e. on the Python call returning normally), every fuel value.
 -/
 import NemoVerif.Lemmas.LifetimeT2
+import NemoVerif.Lemmas.LifetimeLinked
+import NemoVerif.Lemmas.LifetimeCount
+import NemoVerif.Lemmas.LifetimeV
+import NemoVerif.Lemmas.LifetimeVEq
+import NemoVerif.Lemmas.LifetimeVInv
+import NemoVerif.Lemmas.LifetimeCoreVM9
+import NemoVerif.Lemmas.LifetimeCoreVM9b
 namespace NemoVerif.C06
 open NemoVerif.Lifetime
 
@@ -63,6 +70,8 @@ inductive OpStep : State → State → Prop
       OpStep s (setAction s a { x with count := x.count + 1 })
   /-- anything that touches neither the action table nor the `Stop` events -/
   | other {s s' : State} : s'.actions = s.actions → (∀ a, stops a s'.out = stops a s.out) → OpStep s s'
+  /-- `del state.actions[b]` (the co-winner's own, never started action instance) -/
+  | delAction {s : State} (b : Nat) : OpStep s { s with actions := fun v => if v = b then none else s.actions v }
 
 inductive OpSteps : State → State → Prop
   | refl (s : State) : OpSteps s s
@@ -90,6 +99,15 @@ theorem OpStep.stopInv {s t : State} (hi : StopInv s) (h : OpStep s t) : StopInv
       · exact absurd hs (h2 x hx).2.2
     · rw [setAction_actions_ne _ _ _ _ hb]; exact hi b
   | other ha ho => exact hi.of_frame ha ho
+  | delAction b =>
+    intro a
+    rcases hi a with h0 | ⟨h1, h2⟩
+    · exact Or.inl h0
+    · refine Or.inr ⟨h1, fun x hx => ?_⟩
+      simp only at hx
+      split at hx
+      · cases hx
+      · exact h2 x hx
 
 theorem OpSteps.stopInv {s t : State} (hi : StopInv s) (h : OpSteps s t) : StopInv t := by
   induction h with
@@ -115,6 +133,169 @@ example : (match abortFlow 3 (generateUmim exState (.start 7) (AEv.startOf 7)) 0
     | .ok s2 => decide (stops 7 s2.out = 1) && (s2.actions 7).map (·.status) == some .stopping &&
         (s2.flows 0).map (·.status) == some .stopped
     | .error _ => false) = true := by decide
+
+/-! ### every operation of the operation-sequence semantics is covered by `stop_at_most_once` -/
+
+theorem OpSteps.single {s t : State} (h : OpStep s t) : OpSteps s t := .cons h (.refl _)
+
+/-- each `applyOp` step (Models/LifetimeOps.lean, repaired co-win: the winner's action is still STARTING) is a
+    sequence of `OpStep`s -/
+theorem applyOp_opSteps (s : State) (op : IOp) : OpSteps s (applyOp s op) := by
+  cases op with
+  | abort n u d =>
+    simp only [applyOp]
+    cases h : abortFlow n s u d with
+    | error e => exact .refl _
+    | ok s' => exact .single (.abort n u d h)
+  | finish n u d =>
+    simp only [applyOp]
+    cases h : finishFlow n s u d with
+    | error e => exact .refl _
+    | ok s' => exact .single (.finish n u d h)
+  | endScope n u nm =>
+    simp only [applyOp]
+    cases h : endScope n s u nm with
+    | error e => exact .refl _
+    | ok s' => exact .single (.endScope n u nm h)
+  | startChild c fid p k =>
+    simp only [applyOp]
+    split
+    · split
+      · exact .single (.other rfl (fun _ => rfl))
+      · exact .refl _
+    · exact .refl _
+  | reactivate fid known act hasInst source pm =>
+    simp only [applyOp]
+    split
+    · next s' r h =>
+      rcases processStartFlow_effect s fid known act hasInst source _ s' r h with e | ⟨_, _, _, _, _, _, _, _, e⟩
+      · rw [e]; exact .refl _
+      · rw [e]; exact .single (.other (by simp) (fun _ => by simp))
+    · exact .refl _
+  | status u st =>
+    simp only [applyOp]
+    split
+    · split
+      · exact .single (.other rfl (fun _ => rfl))
+      · exact .refl _
+    · exact .refl _
+  | newAction u a =>
+    simp only [applyOp]
+    split
+    · next f hf ha =>
+      split
+      · next h0 =>
+        refine .cons (.other (s' := setFlow s u { f with actionUids := f.actionUids ++ [a] }) rfl (fun _ => rfl)) ?_
+        exact .single (.newAction a ha (by simpa [stops] using h0))
+      · exact .refl _
+    · exact .refl _
+  | startAction a =>
+    simp only [applyOp]
+    split
+    · next x hx =>
+      split
+      · next hini => exact .single (.startAction a x hx (by simpa using hini))
+      · exact .refl _
+    · exact .refl _
+  | coWin loser a b =>
+    simp only [applyOp]
+    split
+    · next f x hf hx =>
+      split
+      · next hg =>
+        simp only [Bool.and_eq_true, beq_iff_eq] at hg
+        refine .cons (.other (s' := setFlow s loser { f with actionUids := f.actionUids.map fun y => if y == b then a else y }) rfl (fun _ => rfl)) ?_
+        refine .cons (.coWin a x hx hg.2) ?_
+        exact .single (.delAction b)
+      · exact .refl _
+    · exact .refl _
+  | event e =>
+    by_cases hg : eventOk s e = true
+    · have happ : applyOp s (.event e) = updateActionStatusByEvent s e := by simp only [applyOp, hg, if_true]
+      rw [happ]
+      simp only [eventOk, Bool.and_eq_true] at hg
+      refine .single (.event e ?_)
+      have h1 := hg.1
+      simp only [AEv.isStartEvent]
+      cases hs : e.started <;> cases hu : e.updated <;> cases hf : e.finished <;> simp [hs, hu, hf] at h1 ⊢
+    · have happ : applyOp s (.event e) = s := by simp only [applyOp, hg]; rfl
+      rw [happ]; exact .refl _
+  | label u =>
+    simp only [applyOp]
+    cases h : labelRestart s u with
+    | error e => exact .refl _
+    | ok s' =>
+      have hfr : s'.actions = s.actions ∧ s'.out = s.out := by
+        unfold labelRestart at h
+        split at h
+        · cases h
+        · split at h
+          · cases h; exact ⟨rfl, rfl⟩
+          · cases h; simp
+      show OpSteps s s'
+      exact .single (.other hfr.1 (fun _ => by rw [hfr.2]))
+  | frame u heads scopes =>
+    simp only [applyOp]
+    split
+    · exact .single (.other rfl (fun _ => rfl))
+    · exact .refl _
+  | noRestart u =>
+    simp only [applyOp]
+    exact .single (.other (by simp) (fun _ => by simp))
+
+theorem OpSteps.trans {s t r : State} (h1 : OpSteps s t) (h2 : OpSteps t r) : OpSteps s r := by
+  induction h1 with
+  | refl => exact h2
+  | cons hs _ ih => exact .cons hs (ih h2)
+
+/-- **`stop_at_most_once` over the whole operation-sequence semantics**: in every state reachable from the initial
+    state by `applyOp` every action has been sent at most one `Stop`.  (This is where the co-win guard "the winner's
+    action is still STARTING" is needed: see `cowin_stopped_action_as_is_counterexample`.) -/
+theorem stop_at_most_once_run (ops : List IOp) (a : Nat) : stops a (run ops).out ≤ 1 := by
+  have h : OpSteps initState (run ops) := by
+    unfold run
+    suffices h : ∀ (l : List IOp) (s : State), OpSteps s (l.foldl applyOp s) from h ops _
+    intro l
+    induction l with
+    | nil => intro s; exact .refl _
+    | cons op l ih => intro s; exact (applyOp_opSteps s op).trans (ih _)
+  exact stop_at_most_once initState (run ops) (fun _ => rfl) h a
+
+/-- The co-win of the UNPATCHED `_resolve_action_conflicts`: no check that the winner's action is still STARTING
+    (nor that the loser's flow is still alive). -/
+def coWinAsIs (s : State) (loser a b : Nat) : State :=
+  match s.flows loser, s.actions a with
+  | some f, some x =>
+    if a != b then
+      let s1 := setFlow s loser { f with actionUids := f.actionUids.map fun y => if y == b then a else y }
+      { setAction s1 a { x with count := x.count + 1 } with actions := fun v => if v = b then none else (setAction s1 a { x with count := x.count + 1 }).actions v }
+    else s
+  | _, _ => s
+
+/-- main(0) starts l(1) and c(3); l starts w(2).  All three reach a `send Start` in the same round: w's action 7 wins
+    (Start 7), l loses and is aborted — together with its child w: Stop 7 —, then c's head still co-wins onto action 7. -/
+def cowinPrefix : List IOp :=
+  [.status 0 .starting, .status 0 .started, .startChild 1 1 0 0, .status 1 .starting, .status 1 .started,
+   .startChild 2 2 1 0, .status 2 .starting, .status 2 .started, .startChild 3 3 0 0, .status 3 .starting, .status 3 .started,
+   .newAction 2 7, .newAction 1 8, .newAction 3 9, .startAction 7, .abort 5 1 false]
+
+/-- **as-is counterexample** (finding `cowin-after-abort-in-conflict`, replayed on the real interpreter by
+    harness/corpus/C06/cowin_after_abort.json): with the unguarded co-win, a late `…ActionStarted` and the end of
+    the co-winner produce a SECOND `Stop` for the same action; the guarded (repaired) step refuses the co-win. -/
+theorem cowin_stopped_action_as_is_counterexample :
+    stops 7 (run cowinPrefix).out = 1 ∧
+    stops 7 (applyOp (applyOp (coWinAsIs (run cowinPrefix) 3 7 9) (.event ⟨7, true, true, false, false, false, false⟩))
+      (.finish 5 3 false)).out = 2 ∧
+    applyOp (run cowinPrefix) (.coWin 3 7 9) = run cowinPrefix := by
+  refine ⟨by decide, by decide, ?_⟩
+  have h : ((run cowinPrefix).actions 7).map (·.status) = some .stopping := by decide
+  simp only [applyOp]
+  split
+  · next f x hf hx =>
+    rw [hx] at h
+    simp only [Option.map_some, Option.some.injEq] at h
+    simp [h]
+  · rfl
 
 /-! ## T1 `abort_post` / `finish_post` -/
 
@@ -411,11 +592,11 @@ theorem children_stopped (n : Nat) (l : List Nat) (s s1 : State)
     parent is a restarted instance of that parent;  nobody lists the main flow, which has no parent; every live
     instance is in the iteration order.  `act.act1`: a STARTING/STARTED action that has not been sent a `Stop` has
     scope count ≥ 1;  `act.act0`: a STOPPING action has been sent its `Stop`. -/
-structure LifetimeInv (s : State) : Prop where
+structure LifetimeInv0 (s : State) : Prop where
   flow : FlowInv s
   act : ActInv s
 
-theorem lifetime_inv_init : LifetimeInv initState := by
+theorem lifetime_inv0_init : LifetimeInv0 initState := by
   refine ⟨⟨?_, ?_, ?_, ?_, ?_⟩, ⟨?_, ?_⟩⟩
   · intro p pf c cf hp hc
     simp only [initState] at hp
@@ -462,7 +643,7 @@ theorem labelRestart_core (s : State) (u : Nat) (s' : State) (h : labelRestart s
       simpa using this
 
 /-- every operation preserves the invariant -/
-theorem lifetime_inv_step (s : State) (op : IOp) (hi : LifetimeInv s) : LifetimeInv (applyOp s op) := by
+theorem lifetime_inv0_step (s : State) (op : IOp) (hi : LifetimeInv0 s) : LifetimeInv0 (applyOp s op) := by
   cases op with
   | abort n u d =>
     simp only [applyOp]
@@ -582,7 +763,7 @@ theorem lifetime_inv_step (s : State) (op : IOp) (hi : LifetimeInv s) : Lifetime
     | error e => exact hi
     | ok s' =>
       obtain ⟨ho, ha, hout, hc⟩ := labelRestart_core s u s' h
-      show LifetimeInv s'
+      show LifetimeInv0 s'
       exact ⟨hi.flow.of_core ho hc, hi.act.congr ha (fun _ => by rw [hout])⟩
   | frame u heads scopes =>
     simp only [applyOp]
@@ -597,6 +778,24 @@ theorem lifetime_inv_step (s : State) (op : IOp) (hi : LifetimeInv s) : Lifetime
       rw [modFlow_some _ _ _ _ hf]
       exact ⟨hi.flow.of_core rfl (core_setFlow s u f _ hf rfl), hi.act.congr rfl (fun _ => rfl)⟩
 
+/-- The full invariant (phase 4).  `base` as above; `link` (clause iv): every listening instance is listed in the
+    `child_flow_uids` of its parent, parent pointers are live, the main flow is a root; `cnt` (clause iii): the iteration
+    order lists exactly the live instances once, and every STARTING/STARTED action that has not been sent a `Stop` has
+    `flow_scope_count ≤` number of its occurrences in the `action_uids` of listening-or-STOPPING instances. -/
+structure LifetimeInv (s : State) : Prop where
+  base : LifetimeInv0 s
+  link : LinkInv s
+  cnt : CountInv s
+
+theorem LifetimeInv.flow {s : State} (h : LifetimeInv s) : FlowInv s := h.base.flow
+theorem LifetimeInv.act {s : State} (h : LifetimeInv s) : ActInv s := h.base.act
+
+theorem lifetime_inv_init : LifetimeInv initState := ⟨lifetime_inv0_init, LinkInv.init, CountInv.init⟩
+
+/-- every operation preserves the invariant -/
+theorem lifetime_inv_step (s : State) (op : IOp) (hi : LifetimeInv s) : LifetimeInv (applyOp s op) :=
+  ⟨lifetime_inv0_step s op hi.base, LinkInv.step s op hi.link, CountInv.step s op hi.base.act hi.cnt⟩
+
 /-- **T2**: the invariant holds in every state the operation-sequence semantics can reach. -/
 theorem lifetime_invariant (ops : List IOp) : LifetimeInv (run ops) := by
   unfold run
@@ -606,13 +805,72 @@ theorem lifetime_invariant (ops : List IOp) : LifetimeInv (run ops) := by
   | nil => intro s hs; exact hs
   | cons op l ih => intro s hs; exact ih _ (lifetime_inv_step s op hs)
 
-/-- parent-form reading: wherever the parent still lists the child (`child_flow_uids`), a listening
+/-- children-form reading: wherever the parent still lists the child (`child_flow_uids`), a listening
     non-activated instance has a listening (or STOPPING) parent -/
 theorem lifetime_parent_form (ops : List IOp) (c p : Nat) (cf pf : Flow) (hc : (run ops).flows c = some cf)
     (hp : (run ops).flows p = some pf) (hlisted : c ∈ pf.children) (hl : cf.status.listening = true) (ha : cf.activated = 0) :
     pf.status.listening = true ∨ pf.status = .stopping :=
   (lifetime_invariant ops).flow.dc p pf c cf hp hlisted hc (fun h => h) ha hl
 
+/-- **clause (iv), parent-pointer form**: in every reachable state a listening non-activated instance whose
+    `parent_uid` is `p` has a parent that is listening or STOPPING (= executing `abort`; its `_abort_flow` is the next
+    operation).  (`LinkInv.linked` supplies "the parent still lists the child"; note the statement order in
+    `_abort_flow`: the removal from the parent's list comes BEFORE the STOPPED mark, both in the straight-line tail.) -/
+theorem lifetime_parent_pointer_form (ops : List IOp) (c p : Nat) (cf pf : Flow) (hc : (run ops).flows c = some cf)
+    (hp : (run ops).flows p = some pf) (hpar : cf.parent = some p) (hl : cf.status.listening = true) (ha : cf.activated = 0) :
+    pf.status.listening = true ∨ pf.status = .stopping :=
+  parent_pointer_form (run ops) (lifetime_invariant ops).flow (lifetime_invariant ops).link c p cf pf hc hp hpar hl ha
+
+/-- the parent of a live instance is a live instance (no dangling `parent_uid` inside a case: no clean-up) -/
+theorem lifetime_parent_live (ops : List IOp) (c p : Nat) (cf : Flow) (hc : (run ops).flows c = some cf) (hpar : cf.parent = some p) :
+    ∃ pf, (run ops).flows p = some pf :=
+  (lifetime_invariant ops).link.parentLive c cf p hc hpar
+
+/-- `q` is reachable from `c` along `parent_uid` through listening non-activated instances -/
+inductive UpChain (s : State) (c : Nat) : Nat → Prop
+  | refl : UpChain s c c
+  | step {q p : Nat} {qf : Flow} : UpChain s c q → s.flows q = some qf → qf.status.listening = true → qf.activated = 0 →
+      qf.parent = some p → UpChain s c p
+
+/-- **transitive parent-pointer form** (the oracle's O2 as a theorem): walking up from a listening instance along
+    `parent_uid` through listening non-activated instances one never meets a FINISHED / STOPPED / WAITING-less ancestor:
+    every instance on the chain is listening or STOPPING.  Contrapositive: below an ended instance nothing that it
+    started (transitively, along non-activated instances) is still listening. -/
+theorem ancestors_listening (ops : List IOp) (c : Nat) (cf : Flow) (hc : (run ops).flows c = some cf)
+    (hl : cf.status.listening = true) (q : Nat) (h : UpChain (run ops) c q) (qf : Flow) (hq : (run ops).flows q = some qf) :
+    qf.status.listening = true ∨ qf.status = .stopping := by
+  induction h generalizing qf with
+  | refl => rw [hc] at hq; cases hq; exact Or.inl hl
+  | step _ hq' hl' ha' hpar _ => exact lifetime_parent_pointer_form ops _ _ _ qf hq' hq hpar hl' ha'
+
+/-- non-vacuity of `UpChain` / the parent-pointer form: main (0) starts flow 1 which starts flow 2 -/
+example : UpChain (run [.status 0 .starting, .status 0 .started, .startChild 1 1 0 0, .status 1 .starting,
+    .status 1 .started, .startChild 2 2 1 0]) 2 0 :=
+  .step (.step .refl (qf := { freshFlow 2 with parent := some 1 }) rfl (by decide) (by decide) rfl)
+    (qf := { freshFlow 1 with parent := some 0, status := .started, children := [2] }) rfl (by decide) (by decide) rfl
+
+/-- **clause (iii)**: in every reachable state a STARTING/STARTED action that has not been sent a `Stop` has
+    `1 ≤ flow_scope_count ≤ holders`, hence is in the `action_uids` of an instance that is listening or STOPPING. -/
+theorem running_action_has_holder (ops : List IOp) (a : Nat) (x : Action) (hx : (run ops).actions a = some x)
+    (hr : x.status.running = true) (h0 : stops a (run ops).out = 0) :
+    1 ≤ x.count ∧ x.count ≤ (holders (run ops) a : Int) ∧
+    ∃ v f, v ∈ (run ops).order ∧ (run ops).flows v = some f ∧ (f.status.listening = true ∨ f.status = .stopping) ∧
+      a ∈ f.actionUids :=
+  ⟨(lifetime_invariant ops).act.act1 a x hx hr h0, (lifetime_invariant ops).cnt.le a x hx hr (by simpa using h0) |> (by simpa using ·),
+   count_has_holder (lifetime_invariant ops).cnt (lifetime_invariant ops).act a x hx hr h0⟩
+
+/-- the equality `flow_scope_count = holders` does NOT hold in the code as it is: `EndScope` decrements the count of a
+    shared action without removing it from `action_uids` (the second decrement comes when the flow ends).  History:
+    main starts action 7; flow 1 co-wins onto it (count 2); main's scope that registered 7 ends (count 1, no Stop):
+    the action is running, not stopped, count 1, held by two listening instances. -/
+def cexOps : List IOp :=
+  [.status 0 .starting, .status 0 .started, .newAction 0 7, .startAction 7,
+   .startChild 1 1 0 0, .status 1 .starting, .status 1 .started, .newAction 1 8, .coWin 1 7 8,
+   .frame 0 1 [(5, [], [7])], .endScope 3 0 5]
+
+theorem count_eq_as_is_counterexample :
+    (run cexOps).actions 7 = some ⟨.starting, 1⟩ ∧ holders (run cexOps) 7 = 2 ∧ stops 7 (run cexOps).out = 0 := by
+  decide
 
 /-! ## fuel: `abort_fuel_sufficient`, and what happens on a cyclic child graph -/
 
@@ -652,6 +910,279 @@ theorem abort_cyclic_as_is_counterexample : ∀ n : Nat,
       simp [this]
 
 /-! ## the transitive statement -/
+
+/-! ## the repaired recursion (finding `activation-cycle-recursion`, fixes/C06-activation-cycle.diff)
+
+`Models/LifetimeV.lean`: `_abort_flow` threads the set `in_progress` (field `State.busy`) of the instances that are
+being aborted / finished further up the call stack and does not enter them again.  This is the recursion the driver
+replays (`C06.abort|finish|endscope`); the as-is recursion is replayed next to it and must give the same answer on
+every recorded call whose hierarchy is acyclic. -/
+
+/-- **`abort_fuel_sufficient` at full strength for the repaired recursion**: NO acyclicity hypothesis — for every
+    state whose live instances are in the iteration order, an outermost repaired `_abort_flow` never exhausts fuel
+    `2·#instances + 1`: the Python recursion terminates on every hierarchy, mutually activating flows included. -/
+theorem abort_repaired_fuel_sufficient (n : Nat) (s : State) (u : Nat) (d : Bool)
+    (hd : ∀ v, (s.flows v).isSome = true → v ∈ s.order) (hn : 2 * s.order.length < n) :
+    abortTopV n s u d ≠ .error .fuel :=
+  abortTopV_fuel_sufficient n s u d hd hn
+
+theorem finish_repaired_fuel_sufficient (n : Nat) (s : State) (u : Nat) (d : Bool)
+    (hd : ∀ v, (s.flows v).isSome = true → v ∈ s.order) (hn : 2 * s.order.length < n) :
+    finishFlowV n s u d ≠ .error .fuel :=
+  finishFlowV_fuel_sufficient n s u d hd hn
+
+/-- on the 2-cycle where the as-is recursion never terminates (`abort_cyclic_as_is_counterexample`) the repaired one
+    stops both instances (non-vacuity of the two theorems above: `cyc` satisfies their hypotheses with `n = 5`) -/
+theorem abort_cyclic_repaired :
+    (match abortTopV 5 cyc 0 true with
+     | .ok s' => (s'.flows 0).map (·.status) == some .stopped && (s'.flows 1).map (·.status) == some .stopped
+     | .error _ => false) = true := by decide
+
+/-- the clauses that go through the repaired recursion by the generic skeleton (`Closed`): clause (iv) `LinkInv`,
+    clause (iii) `CountInv`, the action clauses `ActInv`.  (The children-form clause `FlowInv.dc` needs the `Good E`
+    induction: `lifetime_inv_step_repaired` below.) -/
+structure RepairedInv (s : State) : Prop where
+  link : LinkInv s
+  cnt : CountInv s
+  act : ActInv s
+
+theorem repaired_inv_step (s : State) (op : IOp) (hi : RepairedInv s) : RepairedInv (applyOpV s op) := by
+  have henv : applyOpV s op = applyOp s op → RepairedInv (applyOpV s op) := fun e => by
+    rw [e]; exact ⟨LinkInv.step s op hi.link, CountInv.step s op hi.act hi.cnt, ActInv.step s op hi.act⟩
+  cases op with
+  | abort n u d =>
+    simp only [applyOpV]
+    cases h : abortTopV n s u d with
+    | error e => exact hi
+    | ok s' =>
+      exact ⟨abortTopV_closed linkInv_closed linkInv_busy n s u d s' hi.link h,
+        abortTopV_closed countInv_closed countInv_busy n s u d s' hi.cnt h,
+        abortTopV_closed actInv_closed.1 actInv_closed.2 n s u d s' hi.act h⟩
+  | finish n u d =>
+    simp only [applyOpV]
+    cases h : finishFlowV n s u d with
+    | error e => exact hi
+    | ok s' =>
+      exact ⟨finishFlowV_closed linkInv_closed linkInv_busy n s u d s' hi.link h,
+        finishFlowV_closed countInv_closed countInv_busy n s u d s' hi.cnt h,
+        finishFlowV_closed actInv_closed.1 actInv_closed.2 n s u d s' hi.act h⟩
+  | endScope n u nm =>
+    simp only [applyOpV]
+    cases h : endScopeV n s u nm with
+    | error e => exact hi
+    | ok s' =>
+      exact ⟨endScopeV_closed linkInv_closed linkInv_busy n s u nm s' hi.link h,
+        endScopeV_closed countInv_closed countInv_busy n s u nm s' hi.cnt h,
+        endScopeV_closed actInv_closed.1 actInv_closed.2 n s u nm s' hi.act h⟩
+  | startChild c fid p k => exact henv rfl
+  | reactivate fid known act hasInst source pm => exact henv rfl
+  | status u st => exact henv rfl
+  | newAction u a => exact henv rfl
+  | startAction a => exact henv rfl
+  | coWin loser a b => exact henv rfl
+  | event e => exact henv rfl
+  | label u => exact henv rfl
+  | noRestart u => exact henv rfl
+  | frame u heads scopes => exact henv rfl
+
+/-- clauses (iii), (iv) and the action clauses along every run of the repaired machine (a corollary of
+    `lifetime_invariant_repaired` below, kept because it is proved by the generic skeleton alone) -/
+theorem lifetime_invariant_repaired_partial (ops : List IOp) : RepairedInv (runV ops) := by
+  unfold runV
+  suffices h : ∀ (l : List IOp) (s : State), RepairedInv s → RepairedInv (l.foldl applyOpV s) from
+    h ops _ ⟨LinkInv.init, CountInv.init, lifetime_inv0_init.act⟩
+  intro l
+  induction l with
+  | nil => intro s hs; exact hs
+  | cons op l ih => intro s hs; exact ih _ (repaired_inv_step s op hs)
+
+/-- **on an acyclic hierarchy the repaired recursion IS the as-is recursion** (`Ranked r s`: a rank decreases along
+    `child_flow_uids`): same answer — state or Python exception — up to the content of `in_progress` (`wbE b'`).  Hence
+    every theorem about `abortFlow` / `finishFlow` / `endScope` above speaks about the repaired interpreter on acyclic
+    hierarchies; inside a cycle the as-is functions are the finding `activation-cycle-recursion`. -/
+theorem repaired_abort_eq_as_is_of_acyclic (r : Nat → Nat) (n : Nat) (s : State) (u : Nat) (d : Bool) (hr : Ranked r s) :
+    ∃ b', abortTopV n s u d = wbE b' (abortFlow n s u d) := abortTopV_eq_of_ranked r n s u d hr
+
+theorem repaired_finish_eq_as_is_of_acyclic (r : Nat → Nat) (n : Nat) (s : State) (u : Nat) (d : Bool) (hr : Ranked r s) :
+    ∃ b', finishFlowV n s u d = wbE b' (finishFlow n s u d) := finishFlowV_eq_of_ranked r n s u d hr
+
+theorem repaired_endScope_eq_as_is_of_acyclic (r : Nat → Nat) (n : Nat) (s : State) (u nm : Nat) (hr : Ranked r s) :
+    ∃ b', endScopeV n s u nm = wbE b' (endScope n s u nm) := endScopeV_eq_of_ranked r n s u nm hr
+
+theorem LifetimeInv.wb {s : State} (hi : LifetimeInv s) (b : List Nat) : LifetimeInv (wb b s) :=
+  ⟨⟨hi.flow.of_flows_eq rfl rfl, hi.act.congr rfl (fun _ => rfl)⟩, hi.link.of_flows_eq rfl,
+   hi.cnt.of_hk (HkEq.of_flows_eq rfl) rfl rfl rfl⟩
+
+/-- one step of the REPAIRED machine from a state with an acyclic hierarchy preserves the FULL invariant -/
+theorem lifetime_inv_step_repaired_of_acyclic (s : State) (op : IOp) (hr : ∃ r, Ranked r s) (hi : LifetimeInv s) :
+    LifetimeInv (applyOpV s op) := by
+  obtain ⟨r, hr⟩ := hr
+  have henv : applyOpV s op = applyOp s op → LifetimeInv (applyOpV s op) := fun e => by
+    rw [e]; exact lifetime_inv_step s op hi
+  cases op with
+  | abort n u d =>
+    obtain ⟨b', e⟩ := abortTopV_eq_of_ranked r n s u d hr
+    have h0 := lifetime_inv_step s (.abort n u d) hi
+    simp only [applyOpV, applyOp, e] at h0 ⊢
+    cases h : abortFlow n s u d with
+    | error e' => exact hi
+    | ok s' => rw [h] at h0; exact LifetimeInv.wb h0 b'
+  | finish n u d =>
+    obtain ⟨b', e⟩ := finishFlowV_eq_of_ranked r n s u d hr
+    have h0 := lifetime_inv_step s (.finish n u d) hi
+    simp only [applyOpV, applyOp, e] at h0 ⊢
+    cases h : finishFlow n s u d with
+    | error e' => exact hi
+    | ok s' => rw [h] at h0; exact LifetimeInv.wb h0 b'
+  | endScope n u nm =>
+    obtain ⟨b', e⟩ := endScopeV_eq_of_ranked r n s u nm hr
+    have h0 := lifetime_inv_step s (.endScope n u nm) hi
+    simp only [applyOpV, applyOp, e] at h0 ⊢
+    cases h : endScope n s u nm with
+    | error e' => exact hi
+    | ok s' => rw [h] at h0; exact LifetimeInv.wb h0 b'
+  | startChild c fid p k => exact henv rfl
+  | reactivate fid known act hasInst source pm => exact henv rfl
+  | status u st => exact henv rfl
+  | newAction u a => exact henv rfl
+  | startAction a => exact henv rfl
+  | coWin loser a b => exact henv rfl
+  | event e => exact henv rfl
+  | label u => exact henv rfl
+  | noRestart u => exact henv rfl
+  | frame u heads scopes => exact henv rfl
+
+/-- one step of the REPAIRED machine preserves the FULL invariant — on EVERY hierarchy, activation cycles included
+    (the children-form clause through the repaired recursion: Lemmas/LifetimeVInv.lean, `abortFlowV_good` — the
+    `Good E` induction of the as-is recursion with one more invariant: every uid in `in_progress` is exempt or not
+    listening; a skipped re-entered instance is exempt because its own call is in progress further up the stack) -/
+theorem lifetime_inv_step_repaired (s : State) (op : IOp) (hi : LifetimeInv s) : LifetimeInv (applyOpV s op) := by
+  have hr := repaired_inv_step s op ⟨hi.link, hi.cnt, hi.act⟩
+  have henv : applyOpV s op = applyOp s op → FlowInv (applyOpV s op) := fun e => by
+    rw [e]; exact (lifetime_inv_step s op hi).flow
+  have hf : FlowInv (applyOpV s op) := by
+    cases op with
+    | abort n u d =>
+      simp only [applyOpV]
+      cases h : abortTopV n s u d with
+      | error e => exact hi.flow
+      | ok s' => exact abortTopV_flowInv hi.flow n u d s' h
+    | finish n u d =>
+      simp only [applyOpV]
+      cases h : finishFlowV n s u d with
+      | error e => exact hi.flow
+      | ok s' => exact finishFlowV_flowInv hi.flow n u d s' h
+    | endScope n u nm =>
+      simp only [applyOpV]
+      cases h : endScopeV n s u nm with
+      | error e => exact hi.flow
+      | ok s' => exact endScopeV_flowInv hi.flow n u nm s' h
+    | startChild c fid p k => exact henv rfl
+    | reactivate fid known act hasInst source pm => exact henv rfl
+    | status u st => exact henv rfl
+    | newAction u a => exact henv rfl
+    | startAction a => exact henv rfl
+    | coWin loser a b => exact henv rfl
+    | event e => exact henv rfl
+    | label u => exact henv rfl
+    | noRestart u => exact henv rfl
+    | frame u heads scopes => exact henv rfl
+  exact ⟨⟨hf, hr.act⟩, hr.link, hr.cnt⟩
+
+/-- **T2 for the repaired interpreter, at full strength**: the complete `LifetimeInv` (children form, parent-pointer
+    form, counting clause, action clauses) holds in EVERY state the operation-sequence semantics with the repaired
+    recursion can reach — no acyclicity hypothesis: with mutually activating flows every recursive operation completes
+    (`abort_repaired_fuel_sufficient`) and preserves the invariant. -/
+theorem lifetime_invariant_repaired (ops : List IOp) : LifetimeInv (runV ops) := by
+  unfold runV
+  suffices h : ∀ (l : List IOp) (s : State), LifetimeInv s → LifetimeInv (l.foldl applyOpV s) from h ops _ lifetime_inv_init
+  intro l
+  induction l with
+  | nil => intro s hs; exact hs
+  | cons op l ih => intro s hs; exact ih _ (lifetime_inv_step_repaired s op hs)
+
+/-- every operation of the repaired machine is a sequence of `OpStep`s (the recursive ones through `partialOp`:
+    they are sequences of primitive steps) -/
+theorem applyOpV_opSteps (s : State) (op : IOp) : OpSteps s (applyOpV s op) := by
+  have henv : applyOpV s op = applyOp s op → OpSteps s (applyOpV s op) := fun e => by
+    rw [e]; exact applyOp_opSteps s op
+  cases op with
+  | abort n u d =>
+    simp only [applyOpV]
+    cases h : abortTopV n s u d with
+    | error e => exact .refl _
+    | ok s' => exact .single (.partialOp (abortTopV_steps n s u d s' h))
+  | finish n u d =>
+    simp only [applyOpV]
+    cases h : finishFlowV n s u d with
+    | error e => exact .refl _
+    | ok s' => exact .single (.partialOp (finishFlowV_steps n s u d s' h))
+  | endScope n u nm =>
+    simp only [applyOpV]
+    cases h : endScopeV n s u nm with
+    | error e => exact .refl _
+    | ok s' => exact .single (.partialOp (endScopeV_steps n s u nm s' h))
+  | startChild c fid p k => exact henv rfl
+  | reactivate fid known act hasInst source pm => exact henv rfl
+  | status u st => exact henv rfl
+  | newAction u a => exact henv rfl
+  | startAction a => exact henv rfl
+  | coWin loser a b => exact henv rfl
+  | event e => exact henv rfl
+  | label u => exact henv rfl
+  | noRestart u => exact henv rfl
+  | frame u heads scopes => exact henv rfl
+
+/-- **`stop_at_most_once` for the repaired interpreter**: at most one `Stop` per action in every state the machine
+    with the repaired recursion (and the repaired co-win) can reach -/
+theorem stop_at_most_once_repaired (ops : List IOp) (a : Nat) : stops a (runV ops).out ≤ 1 := by
+  have h : OpSteps initState (runV ops) := by
+    unfold runV
+    suffices h : ∀ (l : List IOp) (s : State), OpSteps s (l.foldl applyOpV s) from h ops _
+    intro l
+    induction l with
+    | nil => intro s; exact .refl _
+    | cons op l ih => intro s; exact (applyOpV_opSteps s op).trans (ih _)
+  exact stop_at_most_once initState (runV ops) (fun _ => rfl) h a
+
+/-- in every reachable state of the repaired machine every outermost `_abort_flow` / `_finish_flow` terminates with
+    fuel `2·#instances + 1` (the domain hypothesis of `abort_repaired_fuel_sufficient` is part of the invariant) -/
+theorem repaired_calls_terminate (ops : List IOp) (n u : Nat) (d : Bool) (hn : 2 * (runV ops).order.length < n) :
+    abortTopV n (runV ops) u d ≠ .error .fuel ∧ finishFlowV n (runV ops) u d ≠ .error .fuel :=
+  ⟨abort_repaired_fuel_sufficient n _ u d (lifetime_invariant_repaired ops).cnt.ord.dom hn,
+   finish_repaired_fuel_sufficient n _ u d (lifetime_invariant_repaired ops).cnt.ord.dom hn⟩
+
+/-- every state along the run (before each operation) has an acyclic `child_flow_uids` graph -/
+def AcyclicRun : State → List IOp → Prop
+  | _, [] => True
+  | s, op :: rest => (∃ r, Ranked r s) ∧ AcyclicRun (applyOpV s op) rest
+
+/-- **T2 for the repaired interpreter, full invariant, on runs without activation cycles**: the complete
+    `LifetimeInv` (children form, parent-pointer form, counting clause, action clauses) holds in every state of a run
+    of the repaired machine along which the hierarchy stays acyclic.  (With cycles: `lifetime_invariant_repaired_partial`.) -/
+theorem lifetime_invariant_repaired_of_acyclic (ops : List IOp) (h : AcyclicRun initState ops) : LifetimeInv (runV ops) := by
+  unfold runV
+  suffices hs : ∀ (l : List IOp) (s : State), LifetimeInv s → AcyclicRun s l → LifetimeInv (l.foldl applyOpV s) from
+    hs ops _ lifetime_inv_init h
+  intro l
+  induction l with
+  | nil => intro s hs _; exact hs
+  | cons op l ih => intro s hs ha; exact ih _ (lifetime_inv_step_repaired_of_acyclic s op ha.1 hs) ha.2
+
+/-- non-vacuity of `AcyclicRun`: the main flow alone, aborted -/
+example : AcyclicRun initState [.abort 3 0 false] :=
+  ⟨⟨fun _ => 0, fun p pf c hp hc _ => by
+      simp only [initState] at hp
+      split at hp
+      · cases hp; simp [freshFlow] at hc
+      · cases hp⟩, trivial⟩
+
+/-- non-vacuity: a run of the repaired machine through the mutual-activation cycle (main activates a, a activates b,
+    b re-activates a; main deactivates a twice): the last `abort` completes and stops both instances -/
+example : let s := runV [.status 0 .starting, .status 0 .started, .startChild 1 1 0 1, .status 1 .starting, .status 1 .started,
+      .startChild 2 2 1 1, .status 2 .starting, .status 2 .started, .reactivate 1 true true true 2 [1],
+      .abort 9 1 true, .abort 9 1 true]
+    (s.flows 1).map (·.status) = some .stopped ∧ (s.flows 2).map (·.status) = some .stopped := by decide
 
 /-- `c` is reachable from `u` through `child_flow_uids` (any depth) along non-activated instances -/
 inductive Desc (s : State) (u : Nat) : Nat → Prop
@@ -724,5 +1255,195 @@ theorem abort_descendants_stopped (n : Nat) (s : State) (u : Nat) (d : Bool) (s'
       exact hns0 hst
     intro c hc
     exact descendants_of_ended s' hi'.dc hns' u f' hf' hl' c hc
+
+/-! ## T3 refinement `CoreVM → Lifetime` (function by function; lemmas in `Lemmas/LifetimeCoreVM*.lean`)
+
+  `Refine.absVM ν φ : CoreVM.VM → Lifetime.State` for injective numberings `ν` (uids, scope names) and `φ` (flow ids); status and
+  head count of an instance come from the index component; queue and outgoing events are NOT abstracted (`Refine.cs` forgets
+  them).  `Refine.WF` : action table keyed by uid, index instances = instance table, well-behaved `Stop…` names, `activated ≥ 0`.
+  Every theorem is about NORMALLY terminating CoreVM runs (`= .ok …`).  The statements about `slideStep` and
+  `processInternalEvent` are about those CoreVM functions themselves (the branch is isolated by unfolding them). -/
+
+section T3
+variable (ν φ : String → Nat)
+
+/-- `CoreVM.abortFlow` IS `Lifetime.abortFlow` on the abstraction: same fuel, all nested calls, every hierarchy -/
+theorem corevm_abort_is_op (hν : Function.Injective ν) (hφ : Function.Injective φ) (n : Nat) (vm : CoreVM.VM) (f : CoreIndex.FUid)
+    (sc : List CoreVM.Score) (d : Bool) (vm' : CoreVM.VM) (hw : Refine.WF vm) (h : CoreVM.abortFlow n f sc d vm = .ok () vm') :
+    ∃ t, Lifetime.abortFlow n (Refine.absVM ν φ vm) (ν f) d = .ok t ∧ Refine.absVM ν φ vm' = Refine.cs t ∧ Refine.WF vm' :=
+  Refine.corevm_abort_is_op ν φ hν hφ n vm f sc d vm' hw h
+
+-- non-vacuity: injective numberings exist; a well-formed state on which the call returns normally
+example : Function.Injective Refine.enc := Refine.enc_inj
+example : Refine.WF Refine.vmEx := Refine.vmEx_wf
+example : (match CoreVM.abortFlow 3 "a" [] false Refine.vmEx with | .ok _ _ => true | .error _ _ => false) = true := Refine.vmEx_abort_ok
+
+/-- `CoreVM.finishFlow` IS `Lifetime.finishFlow`; `LogInvisible`: `_log_action_or_intents` only pushes log events
+    (`Refine.logInvisible_of_noMeta`: true for flows without `@meta` tags) -/
+theorem corevm_finish_is_op (hν : Function.Injective ν) (hφ : Function.Injective φ) (n : Nat) (vm : CoreVM.VM) (f : CoreIndex.FUid)
+    (sc : List CoreVM.Score) (d : Bool) (vm' : CoreVM.VM) (hlog : Refine.LogInvisible n f sc) (hw : Refine.WF vm)
+    (h : CoreVM.finishFlow n f sc d vm = .ok () vm') :
+    ∃ t, Lifetime.finishFlow n (Refine.absVM ν φ vm) (ν f) d = .ok t ∧ Refine.absVM ν φ vm' = Refine.cs t ∧ Refine.WF vm' :=
+  Refine.corevm_finish_is_op ν φ hν hφ n vm f sc d vm' hlog hw h
+
+-- non-vacuity of `LogInvisible`: it follows from a condition on the flow configs
+example (fuel : Nat) (f : CoreIndex.FUid) (sc : List CoreVM.Score)
+    (hmeta : ∀ vm cfg vm', CoreVM.cfgOfInst f vm = .ok cfg vm' → cfg.metaTags = []) : Refine.LogInvisible fuel f sc :=
+  Refine.logInvisible_of_noMeta fuel f sc hmeta
+
+/-- the `EndScope` element of `slide` IS `Lifetime.endScope` (stated on `CoreVM.slideStep`); the scope dict has unique keys (a Python
+    dict); `NameRO`: evaluating the event name of the next element leaves index, instance table and action table alone -/
+theorem corevm_endscope_is_op (hν : Function.Injective ν) (hφ : Function.Injective φ) (fuel : Nat) (f : CoreIndex.FUid) (h : CoreIndex.HUid)
+    (vm vm' : CoreVM.VM) (cfg : CoreVM.FlowCfg) (hd : CoreIndex.Head) (name : String) (r : Bool × List CoreIndex.Key)
+    (hcfg : CoreVM.cfgOfInst f vm = .ok cfg vm) (hhd : CoreVM.getHead? (f, h) vm = .ok (some hd) vm)
+    (hpos : ¬ (hd.pos ≥ cfg.elements.size ∨ hd.status = .inactive))
+    (hel : cfg.elements[hd.pos]! = .endScope name) (hw : Refine.WF vm)
+    (hsn : ∀ x, OMap.lookup f vm.r.fx = some x → (x.scopes.map (·.1)).Nodup)
+    (hro : Refine.NameRO f (hd.pos + 1))
+    (hrun : CoreVM.slideStep fuel f h vm = .ok r vm') :
+    r = (false, []) ∧ ∃ t, Lifetime.endScope fuel (Refine.absVM ν φ vm) (ν f) (ν name) = .ok t ∧
+      Refine.absVM ν φ vm' = Refine.cs t ∧ Refine.WF vm' :=
+  Refine.corevm_slideStep_endScope_is_op ν φ hν hφ fuel f h vm vm' cfg hd name r hcfg hhd hpos hel hw hsn hro hrun
+
+-- non-vacuity: a well-formed state whose head stands on an `EndScope` element, unique scope names, `slideStep` returns normally;
+-- `NameRO` follows from a condition on the flow configs when the next element is not a `match`
+example : Refine.WF Refine.vmEx5 := Refine.vmEx5_wf
+example : CoreVM.cfgOfInst "a" Refine.vmEx5 = .ok Refine.cfgEx5 Refine.vmEx5 := Refine.vmEx5_cfg
+example : ∀ x, OMap.lookup "a" Refine.vmEx5.r.fx = some x → (x.scopes.map (·.1)).Nodup := Refine.vmEx5_nodup
+example : (match CoreVM.slideStep 3 "a" "h" Refine.vmEx5 with | .ok r _ => r == (false, []) | .error _ _ => false) = true :=
+  Refine.vmEx5_slide_ok
+example (f : CoreIndex.FUid) (p : Nat)
+    (hnm : ∀ vm cfg vm', CoreVM.cfgOfInst f vm = .ok cfg vm' → ∀ spec b, CoreVM.elemAt cfg p ≠ some (.matchOp spec b)) : Refine.NameRO f p :=
+  Refine.nameRO_of_not_match f p hnm
+
+/-- processing `StopFlow(flow_instance_uid=u)` IS the inactive test followed by `Lifetime.abortFlow … (activated > 0)`
+    (stated on `CoreVM.processInternalEvent`) -/
+theorem corevm_stopflow_event_is_op (hν : Function.Injective ν) (hφ : Function.Injective φ) (fuel : Nat) (event : CoreVM.Event)
+    (vm vm' : CoreVM.VM) (uid : String) (r : CoreVM.Event × List String)
+    (hname : event.ev.name = "StopFlow") (huid : CoreVM.lookupArg "flow_instance_uid" event.ev.args = some (.str uid)) (hw : Refine.WF vm)
+    (hrun : CoreVM.processInternalEvent fuel event vm = .ok r vm') :
+    r.1 = event ∧ ∃ t, Refine.stopEventOp fuel (Refine.absVM ν φ vm) (ν uid) false = .ok t ∧
+      Refine.absVM ν φ vm' = Refine.cs t ∧ Refine.WF vm' :=
+  Refine.corevm_stopflow_event_is_op ν φ hν hφ fuel event vm vm' uid r hname huid hw hrun
+
+/-- processing `FinishFlow(flow_instance_uid=u)` IS the inactive test followed by `Lifetime.finishFlow … false` -/
+theorem corevm_finishflow_event_is_op (hν : Function.Injective ν) (hφ : Function.Injective φ) (fuel : Nat) (event : CoreVM.Event)
+    (vm vm' : CoreVM.VM) (uid : String) (r : CoreVM.Event × List String)
+    (hname : event.ev.name = "FinishFlow") (huid : CoreVM.lookupArg "flow_instance_uid" event.ev.args = some (.str uid)) (hw : Refine.WF vm)
+    (hlog : Refine.LogInvisible fuel uid event.scores)
+    (hrun : CoreVM.processInternalEvent fuel event vm = .ok r vm') :
+    r.1 = event ∧ ∃ t, Refine.stopEventOp fuel (Refine.absVM ν φ vm) (ν uid) true = .ok t ∧
+      Refine.absVM ν φ vm' = Refine.cs t ∧ Refine.WF vm' :=
+  Refine.corevm_finishflow_event_is_op ν φ hν hφ fuel event vm vm' uid r hname huid hw hlog hrun
+
+/-- processing a `StartFlow` of a known flow that does NOT create an instance (dropped because the sender ended / was deactivated,
+    or re-activation of an activated reference instance) IS `Lifetime.processStartFlow` with a result other than `create`;
+    `RefAgree`: the reference-instance lookup (with its parameter comparison) agrees with `getRefActivated` under the oracle table
+    `pm` — NOT refined -/
+theorem corevm_startflow_nocreate_is_op (hν : Function.Injective ν) (hφ : Function.Injective φ) (fuel : Nat) (event : CoreVM.Event)
+    (vm vm' : CoreVM.VM) (flowId src : String) (r : CoreVM.Event × List String) (pm : Nat → Bool)
+    (hname : event.ev.name = "StartFlow")
+    (hfid : CoreVM.lookupArg "flow_id" event.ev.args = some (.str flowId))
+    (hsrc : CoreVM.lookupArg "source_flow_instance_uid" event.ev.args = some (.str src))
+    (hknown : ((vm.r.prog.find flowId).isSome && decide (flowId ≠ "main")) = true)
+    (hw : Refine.WF vm) (href : Refine.RefAgree ν φ vm flowId event.ev.args pm)
+    (hrun : CoreVM.processInternalEvent fuel event vm = .ok r vm') (hr : r.2 ≠ []) :
+    ∃ t res, processStartFlow (Refine.absVM ν φ vm) (φ flowId) true (Refine.actArg event.ev.args)
+        (OMap.lookup flowId vm.r.idStates).isSome (ν src) pm = .ok (t, res) ∧ (∀ c, res ≠ .create c) ∧
+      Refine.absVM ν φ vm' = Refine.cs t ∧ Refine.WF vm' :=
+  Refine.corevm_startflow_nocreate_is_op ν φ hν hφ fuel event vm vm' flowId src r pm hname hfid hsrc hknown hw href hrun hr
+
+-- non-vacuity of `RefAgree`: it holds (empty oracle table) when no instance of the flow is registered
+example (vm : CoreVM.VM) (flowId : String) (args : List (String × Val))
+    (hid : (OMap.lookup flowId vm.r.idStates).getD [] = []) : Refine.RefAgree ν φ vm flowId args (fun _ => false) :=
+  Refine.refAgree_of_no_inst ν φ vm flowId args hid
+
+/-- `add_new_flow_instance` (run when a `StartFlow` event creates an instance) IS `createInst` on the abstraction: exactly one fresh
+    WAITING record (no parent, no children, one head, `activated = 0`) at a uid that was not in use, appended to the order.
+    Hypotheses: no shared context, the parameter evaluation of `create_flow_instance` is a frame (`ArgsFrame`), not the main flow.
+    The link to the parent (`_start_flow`) happens later: `corevm_startflow_link_is_op` (the Lifetime machine has both as ONE operation). -/
+theorem corevm_create_is_op (hν : Function.Injective ν) (uid : CoreIndex.FUid) (cfg : CoreVM.FlowCfg) (hp : String)
+    (args : List (String × Val)) (vm vm' : CoreVM.VM) (hw : Refine.WF vm) (hctx : CoreVM.lookupArg "context" args = none)
+    (hargs : Refine.ArgsFrame cfg args) (hmain : cfg.id ≠ "main") (hrun : CoreVM.addNewFlowInstance uid cfg hp args vm = .ok () vm') :
+    (Refine.absVM ν φ vm).flows (ν uid) = none ∧
+      Refine.absVM ν φ vm' = Refine.createInst (Refine.absVM ν φ vm) (ν uid) (φ cfg.id) ∧ Refine.WF vm' :=
+  Refine.corevm_addNewFlowInstance_is_create ν φ hν uid cfg hp args vm vm' hw hctx hargs hmain hrun
+
+-- non-vacuity of `ArgsFrame`: flows without parameters and return members
+example (cfg : CoreVM.FlowCfg) (evArgs : List (String × Val)) (hp : cfg.params = []) (hr : cfg.returnMembers = []) :
+    Refine.ArgsFrame cfg evArgs := Refine.argsFrame_of_empty cfg evArgs hp hr
+
+/-- `_start_flow` (run by `_handle_event_matching` when the head of a created instance matches its `StartFlow` event) IS `linkInst`
+    on the abstraction: `parent_uid := parent`, `parent.child_flow_uids.append(f)`, `activated := n`.  For a `StartFlow` event as
+    `flowStartEvent` builds it (`activated` an int ≥ 0, `source_head_uid` a string or None) and a flow without parameters. -/
+theorem corevm_startflow_link_is_op (hν : Function.Injective ν) (f : CoreIndex.FUid) (args : List (String × Val))
+    (vm vm' : CoreVM.VM) (n : Int) (parent : String) (osh : Option String) (hm : vm.r.mainUid ≠ some f)
+    (hact : CoreVM.lookupArg "activated" args = some (.int n)) (hn0 : 0 ≤ n)
+    (hsh : CoreVM.lookupArg "source_head_uid" args = some (CoreVM.optStrVal osh))
+    (hsrc : CoreVM.lookupArg "source_flow_instance_uid" args = some (.str parent))
+    (hw : Refine.WF vm) (hfp : f ≠ parent) (hnoargs : ∀ x, OMap.lookup f vm.r.fx = some x → x.arguments = [])
+    (hrun : CoreVM.startFlow f args vm = .ok () vm') :
+    (∃ x px, OMap.lookup f vm.r.fx = some x ∧ OMap.lookup parent vm.r.fx = some px) ∧
+      Refine.absVM ν φ vm' = Refine.linkInst (Refine.absVM ν φ vm) (ν f) (ν parent) n.toNat ∧ Refine.WF vm' :=
+  Refine.corevm_startFlow_is_link ν φ hν f args vm vm' n parent osh hm hact hn0 hsh hsrc hw hfp hnoargs hrun
+
+/-- creation followed by the link IS the operation `startChild` of the Lifetime machine (when its guard holds): the two abstract
+    steps that CoreVM performs separately compose to the one operation the T2 theorems are about -/
+theorem create_then_link_is_startChild (s : State) (c fid p k : Nat) (pf : Flow) (hc : s.flows c = none) (hp : s.flows p = some pf)
+    (hg : (unlisted s c && c != p && (pf.status.listening || (decide (k > 0) && pf.flowId == fid && decide (pf.activated > 0)))) = true) :
+    Refine.linkInst (Refine.createInst s c fid) c p k = applyOp s (.startChild c fid p k) :=
+  Refine.link_create_eq_startChild s c fid p k pf hc hp hg
+
+-- non-vacuity: the main flow starts a child in the initial state
+example : (unlisted initState 5 && (5 : Nat) != 0 && ((freshFlow 0).status.listening || false)) = true := by decide
+
+/-- every refined CoreVM step (`Refine.RefinedStep`: outermost `abortFlow` / `finishFlow`; the `EndScope`, `BeginScope`,
+    `start_new_flow_instance`-label, other-label, `send`, `goto`, `assign` and effect-free elements of `slideStep`; `StopFlow` / `FinishFlow` processing in all forms
+    (`flow_instance_uid=…`, `flow_id=…` with the loop over `flow_id_states`); non-creating `StartFlow` processing; `setFlowStatus`
+    along the status order; `updateActionStatusByEvent` for an admissible action event; the `_new_action_instance` element of
+    `slideStep`; `addNewFlowInstance`; `startFlow`) IS a sequence of operations of the Lifetime machine (`abort`, `finish`,
+    `endScope`, `label`, `reactivate`, `frame`, `status`, `event`, `newAction`; at most one except for the `flow_id=…` forms and
+    `newAction ; frame`) on the abstraction, or the creation of an isolated instance (`createInst`), or the
+    link of an isolated instance to its parent (`linkInst`; creation + link = `IOp.startChild`) -/
+theorem corevm_refined_step_is_op (hν : Function.Injective ν) (hφ : Function.Injective φ) (vm vm' : CoreVM.VM) (hw : Refine.WF vm)
+    (h : Refine.RefinedStep ν φ vm vm') :
+    Refine.WF vm' ∧
+      ((∃ ops : List IOp, (∀ op ∈ ops, Refine.Covered op) ∧
+          Refine.absVM ν φ vm' = Refine.cs (ops.foldl applyOp (Refine.absVM ν φ vm))) ∨
+       (∃ c fid, (Refine.absVM ν φ vm).flows c = none ∧ unlisted (Refine.absVM ν φ vm) c = true ∧
+          Refine.absVM ν φ vm' = Refine.createInst (Refine.absVM ν φ vm) c fid) ∨
+       (∃ c p k cf pf, (Refine.absVM ν φ vm).flows c = some cf ∧ (Refine.absVM ν φ vm).flows p = some pf ∧ cf.children = [] ∧
+          cf.isMain = false ∧ unlisted (Refine.absVM ν φ vm) c = true ∧ c ≠ p ∧ (pf.status.listening = true ∨ 0 < k) ∧
+          Refine.absVM ν φ vm' = Refine.linkInst (Refine.absVM ν φ vm) c p k)) :=
+  Refine.refinedStep_is_op ν φ hν hφ vm vm' hw h
+
+/-- PARTIAL (`corevm_lifetime_invariant` would quantify over ALL steps of `CoreVM.runToCompletion`; the `Start` / conflict-resolution
+    sites, head movement in general and the decomposition of a whole run into steps are not refined, and the
+    action clauses do not transfer because `absVM` forgets the outgoing events): the hierarchy part of the lifetime
+    invariant — `FlowInv` (children form, restarted instances under their reference instance, main flow a root) and `LinkInv` (every
+    listening instance is listed by its parent) — holds for the abstraction along every sequence of refined CoreVM steps. -/
+theorem corevm_hierarchy_invariant_partial (hν : Function.Injective ν) (hφ : Function.Injective φ) (vm vm' : CoreVM.VM)
+    (hw : Refine.WF vm) (hf : FlowInv (Refine.absVM ν φ vm)) (hl : LinkInv (Refine.absVM ν φ vm))
+    (h : Refine.RefinedSteps ν φ vm vm') :
+    Refine.WF vm' ∧ FlowInv (Refine.absVM ν φ vm') ∧ LinkInv (Refine.absVM ν φ vm') :=
+  Refine.corevm_hierarchy_invariant_partial ν φ hν hφ vm vm' hw hf hl h
+
+/-- consequence, the parent-pointer form of clause (iv) on CoreVM states: after any sequence of refined steps, an instance that is
+    still listening and whose parent exists is in the parent's `child_flow_uids`, and its parent exists -/
+theorem corevm_parent_pointer_form_partial (hν : Function.Injective ν) (hφ : Function.Injective φ) (vm vm' : CoreVM.VM)
+    (hw : Refine.WF vm) (hf : FlowInv (Refine.absVM ν φ vm)) (hl : LinkInv (Refine.absVM ν φ vm))
+    (h : Refine.RefinedSteps ν φ vm vm') (c : Nat) (cf : Flow) (p : Nat)
+    (hc : (Refine.absVM ν φ vm').flows c = some cf) (hlis : cf.status.listening = true) (hp : cf.parent = some p) :
+    ∃ pf, (Refine.absVM ν φ vm').flows p = some pf ∧ c ∈ pf.children := by
+  obtain ⟨_, _, l'⟩ := Refine.corevm_hierarchy_invariant_partial ν φ hν hφ vm vm' hw hf hl h
+  obtain ⟨pf, hpf⟩ := l'.parentLive c cf p hc hp
+  exact ⟨pf, hpf, l'.linked c cf p pf hc hlis hp hpf⟩
+
+-- non-vacuity: `vmEx` satisfies all hypotheses and a refined step leaves it
+example : FlowInv (Refine.absVM ν φ Refine.vmEx) := Refine.vmEx_flowInv ν φ
+example : LinkInv (Refine.absVM ν φ Refine.vmEx) := Refine.vmEx_linkInv ν φ
+example : ∃ vm', Refine.RefinedSteps ν φ Refine.vmEx vm' ∧ Refine.RefinedStep ν φ Refine.vmEx vm' := Refine.vmEx_refined ν φ
+
+end T3
 
 end NemoVerif.C06
